@@ -181,6 +181,10 @@ func runCase(c *wk.Ctx, i int, p plan, r *rand.Rand) {
 				db.CompactRange(util.Range{})
 			} else {
 				cl.Write()
+				if rp := cl.TxProblem; rp != nil {
+					res.sig, res.msg, res.w = "wrong-value-served", fmt.Sprintf("Transaction.Get(%s) returned %s under fault plan %s; explainable: %v", rp.Key, rp.Got, p, rp.Want), wit(map[string]interface{}{"read": rp, "inside_transaction": true})
+					return false
+				}
 			}
 			return true
 		}
